@@ -223,6 +223,22 @@ CLAIMED = {
         "directory symlinks excluded (K2).",
         "DESIGN.md §7 C07",
     ),
+    "C05": (
+        "Lean 4 refinement theorem over the pipeline (renamers in simulation report the same renames and end the same way, for every file list, plan, order, strategy and answers) + set-algebra lemma of the dry-run state; the simulation premise DryRunRenamer ~ FileRenamer/FileMover is tied by running every scenario dry and real on the implementation and on the model",
+        "Proved in Lean (C05.runs_agree): if two renamers are related by a state relation that every pair of "
+        "corresponding calls preserves while failing/succeeding alike and under which the containment check agrees, "
+        "then the two runs report the same sequence of (source, destination, override) and end with the same outcome, "
+        "for every file list, plan, order, strategy and answer sequence; and a successful dry-run call makes exactly "
+        "the destination virtually present and the source absent, leaving every other path untouched. Partial: that "
+        "the dry-run renamer and the real renamers ARE in such a simulation (name mode: every tree; path/directory "
+        "mode under the property's side conditions) is not yet a theorem; it is established by correspondence: each "
+        "generated scenario (1-3 roots with equal relative names, explicit files, symlinks, all strategies and scripted "
+        "answers) runs through the real CLI with and without --dry-run and through the model of both, and exit status "
+        "and reported renames are compared. Known findings K2, K3, K5 are exercised and printed.",
+        "Trusted: Lean kernel; hand-written renamer/pipeline models tied by sampled correspondence; template values "
+        "independent of renames already performed.",
+        "DESIGN.md §7 C05",
+    ),
 }
 
 NOT_YET = "check not built yet in this snapshot of /verif (work in progress, see DESIGN.md §7)"
